@@ -12,7 +12,7 @@ RULE = ("NetSpecs from the full lattice (finite-server nodes with fixed c or sch
         "for single-call runs without pre-emption.  Non-trivial: some event with all servers busy and a queue, and either >= 5 "
         "completions on one server id or an overtime completion; distinct by spec digest.")
 ASSUMPTIONS = ["live service = ind.server is a Server present in node.servers with server.cust is ind",
-               "utilisation clause only for single simulate_until_max_time calls without any pre-emption (property text)"]
+               "utilisation clause for completed simulate_until_max_time plans (one or several calls); busy time = time attached to a customer"]
 TECHNIQUE = "property-based testing: generated finite-server networks; attachment monitor after every event plus differential audit of node utilisation against the monitor's own integration of server attachment time"
 WALL = {"quick": 150, "thorough": 540}
 
